@@ -64,8 +64,8 @@ CLAIMED = {
         "text": 'Coq theorems over the regenerated real-number model of Orbital.get_observer_look and the module function: both are the core formula applied to the '
                 "observer-position and GMST kernels (by conversion); elevation = asin(up-component/range) in the observer's WGS-84 east-north-up frame, the clips being"
                 ' the identity over the reals (Cauchy-Schwarz); elevation in [-90,90] and the asin argument in [-1,1] for every input; azimuth is the clockwise-from-'
-                "north angle in [0,2pi) (module: any direction with a horizontal component; method: north component non-zero); a satellite on the observer's geodetic "
-                'normal is at elevation exactly 90',
+                "north angle in [0,2pi] (the property's closed [0,360] deg) (module: any direction with a horizontal component; method: north component non-zero); a "
+                "satellite on the observer's geodetic normal is at elevation exactly 90",
         "design_ref": 'DESIGN.md 5/C05',
         "note": 'trusted: Coq kernel, stdlib real axioms, translator (self-checked each run). 1e-4 deg accuracy, finiteness in binary64 and the 5e-3 deg method/module '
                 'agreement are sampled against an independent ENU computation (incl. the exact sub-satellite point, poles, date line, antipode, geostationary '
@@ -132,9 +132,10 @@ CLAIMED = {
     "C11": {
         "text": 'PARTIAL. Coq theorems over a tick-level executable model of get_last_an_time: post-condition, termination for every unit under a Lipschitz hypothesis,'
                 ' non-termination without the unit guard, refined result not late under explicit Newton-step hypotheses; truncation/TBUS/monotonicity of the orbit '
-                "number, strict monotonicity of the cubic over [-1, 5] d under stated TLE field bounds, cache purity, the crossing-time bracket with IVT under scipy's "
-                "contract. Agreement of the count with the trajectory's crossings, v_z > 0, 'no later node', the Lipschitz bound on z, scipy bisect and binary64 "
-                'rounding are sampled against a 1 s z scan',
+                'number, strict monotonicity of the cubic over [-1, 5] d under stated TLE field bounds (the continuous formula is additionally REGENERATED from '
+                'Orbital.get_orbit_number on every run by symbolic execution and proved to be that cubic, TBUS = +1: C11_source_*), cache purity, the crossing-time '
+                "bracket with IVT under scipy's contract. Agreement of the count with the trajectory's crossings, v_z > 0, 'no later node', the Lipschitz bound on z, "
+                'scipy bisect and binary64 rounding are sampled against a 1 s z scan',
         "design_ref": 'DESIGN.md 5/C11',
         "note": 'trusted: Coq kernel, stdlib real axioms; one known class (eccentric orbits, errors within the apsidal-rotation bound 5 s + 1.25 (e/n) dw^2, signature '
                 'C11:count:eccentric-apsidal-rotation) is suppressed by signature with an error cap',
@@ -232,8 +233,9 @@ CLAIMED = {
                 "rdot^2 + rfdot^2, r x v = radius*rfdot*(sin i sin O, -sin i cos O, cos i) (orbital plane has the model's inclination and node), unit conversion of the"
                 ' normalised output; and over the regenerated SGP4 model: (cos u, sin u) is a unit vector, and on every answered propagation of both reachable leaves '
                 "the plane's inclination is within (3/4) k2/pL^2 of the element set's (hence within 0.05 deg for pL >= 0.69 earth radii) and the node within (3/2) "
-                'k2/pL^2 of the secular node. The other clauses (velocity = d position/dt within 0.15 %, perigee/apogee band, energy within 1 %, orbit summary) are '
-                'facts about the SGP4 theory and are checked by sampling',
+                "k2/pL^2 of the secular node. The report's pre-correction rates and radius satisfy vis-viva exactly (v^2/2 - mu/r = -mu/2a) and the rate corrections "
+                'are bounded by k2 n/pL and 3 k2 n/pL. The other clauses (velocity = d position/dt within 0.15 %, perigee/apogee band, returned energy within 1 %, '
+                'orbit summary) are facts about the SGP4 theory and are checked by sampling',
         "design_ref": 'DESIGN.md 5/C20',
         "note": 'trusted: Coq kernel, stdlib real axioms, translator (self-checked each run). Sampled clauses are not proved; say so in evidence.assumptions',
         "technique": 'Coq proof (ring with trigonometric identities) over source-regenerated model; finite-difference and node-scan oracle on the implementation',
